@@ -72,8 +72,14 @@ def gen_mixed(rng, n, avoid_f14=False, avoid_f15=False, avoid_f16=False):
         elif r < 0.605:
             # what a peer's sync sends: a batch of (ephemeral, replicated) instances, a batch of removals, the clients of
             # a node that went away
-            kind = rng.choice(["updbatch", "updbatch", "delbatch", "rmclients"])
-            if kind == "rmclients":
+            kind = rng.choice(["updbatch", "updbatch", "delbatch", "rmclients", "digest"])
+            if kind == "digest":
+                # a peer's digest of its gRPC connections: for each named connection the instances it holds
+                parts = []
+                for _ in range(rng.randrange(1, 4)):
+                    parts.append("cid=%s svc=%s ip=%s port=%d" % ((rng.choice(REMOTE + ["2_x9"]), rng.choice(SVCS)) + rng.choice(ADDRS)))
+                ops.append("digest fc=2 now=%d | %s" % (now, " | ".join(parts)))
+            elif kind == "rmclients":
                 ops.append("rmclients %s now=%d" % (" ".join(rng.sample(CLIENTS + REMOTE, rng.randrange(1, 4))), now))
             else:
                 parts = []
